@@ -185,7 +185,9 @@ func (set *TemplateSet) FromCache(filename string) (*Template, error) {
 
 	// Cache miss
 	if !has {
-		tpl, err := set.FromFile(cleanedFilename)
+		// (the name as given: FromFile asks every loader by its own rules, the
+		// resolved form is the cache key)
+		tpl, err := set.FromFile(filename)
 		if err != nil {
 			return nil, err
 		}
